@@ -193,8 +193,17 @@ def run(ctx):
     et = T.call(f"{FM}.get_external_term", (SELF, v_))
     want = T.seq((T.call("numpy.concatenate", (T.seq((T.idx(eq, T.num(0)), T.idx(et, T.num(0)))),)),
                   T.call("numpy.concatenate", (T.seq((T.idx(eq, T.num(1)), T.idx(et, T.num(1)))),))))
+    # the halves are 1-D rows (np.zeros(len(...)), obligation "starts as zeros over the unknowns" below), so np.hstack, np.append and
+    # np.concatenate of the pair are the same join along their only axis
+
+    def join_1d(t):
+        if t[0] == "call" and t[1] == "numpy.hstack" and len(t[2]) == 1 and t[2][0][0] == "seq":
+            return ("call", "numpy.concatenate", t[2], t[3])
+        if t[0] == "call" and t[1] == "numpy.append" and len(t[2]) == 2 and not t[3]:
+            return ("call", "numpy.concatenate", (T.seq(t[2]),), ())
+        return None
     rules.decide_equal(ctx, "ALIGN", f"{h.qualname} / ALIGN / (x-row, y-row) = equation components in order, interface columns first", ctx.where(h),
-                       sh.ret(), want, "get_row")
+                       T.transform(sh.ret(), join_1d), want, "get_row")
 
     # ================================================================== coefficient placement
     q = repo.func(f"{FM}.get_vertex_equation")
